@@ -26,6 +26,8 @@ pub fn perform_auto_snapshot(
     let history_path = state::history_path(project_root);
     let mut history = TrendHistory::load_or_default(&history_path);
 
+    #[cfg(feature = "verif-hooks")]
+    crate::verif_hooks::point("snap:after_load");
     // Check if we should add (respects min_interval_secs)
     let current_time = state::current_unix_timestamp();
 
